@@ -197,6 +197,16 @@ pub fn progress_oracle(cfg: &RunCfg, out: &RunOut) -> (Vec<Finding>, Value, usiz
     (f, info, judged_blocks)
 }
 
+/// One execution on a runtime of its own: dropping the runtime afterwards drops every task the nodes spawned
+/// (a shared runtime kept them - and their pools and blockstores - alive for the whole shard: gigabytes after
+/// a few dozen executions).
+pub fn run_exec(cfg: &RunCfg, rng: &mut SRng) -> RunOut {
+    let rt = tokio::runtime::Builder::new_current_thread().enable_all().start_paused(true).build().expect("rt");
+    let out = rt.block_on(tokio::task::unconstrained(execute(cfg, rng)));
+    drop(rt);
+    out
+}
+
 pub fn base_cfg(rng: &mut SRng, quick: bool, want_byz: bool, want_crash: bool) -> RunCfg {
     let n = if quick { rng.random_range(4..=7) } else { rng.random_range(4..=11) };
     let fam = *["equal", "equal", "smallint", "exact10", "heavy", "whale60"].choose(rng).unwrap();
@@ -319,7 +329,6 @@ pub fn rival_cfg(rng: &mut SRng, cfg: &mut RunCfg) {
 }
 
 pub fn run_c02(ctx: &mut Ctx) -> Result<(), String> {
-    let rt = tokio::runtime::Builder::new_current_thread().enable_all().start_paused(true).build().map_err(|e| e.to_string())?;
     let mut rng = ctx.rng("c02");
     let runs = ctx.iters(32, 1200);
     for run_ix in 0..runs {
@@ -392,7 +401,7 @@ pub fn run_c02(ctx: &mut Ctx) -> Result<(), String> {
             }
             ctx.count("split-before-stabilisation-executions");
         }
-        let out = rt.block_on(tokio::task::unconstrained(execute(&cfg, &mut rng)));
+        let out = run_exec(&cfg, &mut rng);
         judge_all(ctx, "C02", &cfg, &out);
     }
     Ok(())
@@ -526,7 +535,6 @@ pub fn judge_all(ctx: &mut Ctx, focus: &str, cfg: &RunCfg, out: &RunOut) {
 }
 
 pub fn run_c01(ctx: &mut Ctx) -> Result<(), String> {
-    let rt = tokio::runtime::Builder::new_current_thread().enable_all().start_paused(true).build().map_err(|e| e.to_string())?;
     let mut rng = ctx.rng("c01");
     let runs = ctx.iters(32, 1600);
     for i in 0..runs {
@@ -578,14 +586,13 @@ pub fn run_c01(ctx: &mut Ctx) -> Result<(), String> {
             _ => {}
         }
         cfg.label = format!("c01-script{script}");
-        let out = rt.block_on(tokio::task::unconstrained(execute(&cfg, &mut rng)));
+        let out = run_exec(&cfg, &mut rng);
         judge_all(ctx, "C01", &cfg, &out);
     }
     Ok(())
 }
 
 pub fn run_c05_wire(ctx: &mut Ctx, runs_q: u64, runs_t: u64) {
-    let rt = tokio::runtime::Builder::new_current_thread().enable_all().start_paused(true).build().expect("rt");
     let mut rng = ctx.rng("c05w");
     let runs = ctx.iters(runs_q, runs_t);
     for _ in 0..runs {
@@ -600,7 +607,7 @@ pub fn run_c05_wire(ctx: &mut Ctx, runs_q: u64, runs_t: u64) {
             c.1 = Duration::from_millis(rng.random_range(0..cfg.duration.as_millis() as u64));
         }
         cfg.label = "c05-wire".into();
-        let out = rt.block_on(tokio::task::unconstrained(execute(&cfg, &mut rng)));
+        let out = run_exec(&cfg, &mut rng);
         judge_all(ctx, "C05", &cfg, &out);
     }
     let _: Option<(Bid, VK)> = None;
@@ -626,7 +633,6 @@ pub fn laggard_cfg(rng: &mut SRng, cfg: &mut RunCfg, votes_only: bool) {
 /// C03 at node level: a node assembles (and holds) every certificate that the votes delivered to it justify,
 /// also when it lags and is fed the most recent finalization before the earlier slots' votes.
 pub fn run_c03_nodes(ctx: &mut Ctx, runs_q: u64, runs_t: u64) {
-    let rt = tokio::runtime::Builder::new_current_thread().enable_all().start_paused(true).build().expect("rt");
     let mut rng = ctx.rng("c03-nodes");
     let runs = ctx.iters(runs_q, runs_t);
     for i in 0..runs {
@@ -636,7 +642,7 @@ pub fn run_c03_nodes(ctx: &mut Ctx, runs_q: u64, runs_t: u64) {
         cfg.tx_rate = 0;
         laggard_cfg(&mut rng, &mut cfg, i % 3 != 2);
         cfg.label = "c03-laggard".into();
-        let out = rt.block_on(tokio::task::unconstrained(execute(&cfg, &mut rng)));
+        let out = run_exec(&cfg, &mut rng);
         judge_all(ctx, "C03", &cfg, &out);
     }
 }
@@ -645,7 +651,6 @@ pub fn run_c03_nodes(ctx: &mut Ctx, runs_q: u64, runs_t: u64) {
 /// consensus classes) must leave no trace: in particular no correct node may ever broadcast a certificate that
 /// fails validation (it would contain a signature its signer never made).
 pub fn run_c09_nodes(ctx: &mut Ctx, runs_q: u64, runs_t: u64) {
-    let rt = tokio::runtime::Builder::new_current_thread().enable_all().start_paused(true).build().expect("rt");
     let mut rng = ctx.rng("c09-nodes");
     let runs = ctx.iters(runs_q, runs_t);
     for i in 0..runs {
@@ -660,7 +665,7 @@ pub fn run_c09_nodes(ctx: &mut Ctx, runs_q: u64, runs_t: u64) {
         let classes: Vec<&'static str> = if i % 2 == 0 { vec!["consensus:forged-vote-naming-the-receiver"] } else { vec!["consensus:forged-vote-naming-the-receiver", "consensus:signer-out-of-range", "consensus:cert-sub-threshold", "consensus:cert-bad-bitmask"] };
         cfg.hostile = Some((Duration::from_secs(1), cfg.duration.mul_f64(0.8), classes));
         cfg.label = "c09-nodes".into();
-        let out = rt.block_on(tokio::task::unconstrained(execute(&cfg, &mut rng)));
+        let out = run_exec(&cfg, &mut rng);
         ctx.count_n("c09-nodes:hostile-messages", out.hostile_sent.values().sum::<u64>());
         judge_all(ctx, "C09", &cfg, &out);
     }
@@ -669,7 +674,6 @@ pub fn run_c09_nodes(ctx: &mut Ctx, runs_q: u64, runs_t: u64) {
 /// C13 at node level: forged copies of genuine shreds (altered payload, proof or signature) for slots of
 /// correct leaders must not make a node discredit the leader: in a timely fault-free run nobody skips.
 pub fn run_c13_nodes(ctx: &mut Ctx, runs_q: u64, runs_t: u64) {
-    let rt = tokio::runtime::Builder::new_current_thread().enable_all().start_paused(true).build().expect("rt");
     let mut rng = ctx.rng("c13-nodes");
     let runs = ctx.iters(runs_q, runs_t);
     for _ in 0..runs {
@@ -683,7 +687,7 @@ pub fn run_c13_nodes(ctx: &mut Ctx, runs_q: u64, runs_t: u64) {
         cfg.duration = Duration::from_secs(if ctx.quick() { 10 } else { 16 });
         cfg.hostile = Some((Duration::from_millis(500), cfg.duration, vec!["shred:forged-copy-of-a-genuine-shred"]));
         cfg.label = "c13-nodes".into();
-        let out = rt.block_on(tokio::task::unconstrained(execute(&cfg, &mut rng)));
+        let out = run_exec(&cfg, &mut rng);
         ctx.count_n("c13-nodes:forged-shreds-injected", out.hostile_sent.values().sum::<u64>());
         judge_all(ctx, "C13", &cfg, &out);
     }
@@ -693,7 +697,6 @@ pub fn run_c13_nodes(ctx: &mut Ctx, runs_q: u64, runs_t: u64) {
 /// through exactly one relay broadcast (the forwarding decision sits in the node's message loop, not in
 /// the disseminator alone).
 pub fn run_c16_nodes(ctx: &mut Ctx, runs_q: u64, runs_t: u64) {
-    let rt = tokio::runtime::Builder::new_current_thread().enable_all().start_paused(true).build().expect("rt");
     let mut rng = ctx.rng("c16-nodes");
     let runs = ctx.iters(runs_q, runs_t);
     for _ in 0..runs {
@@ -709,7 +712,7 @@ pub fn run_c16_nodes(ctx: &mut Ctx, runs_q: u64, runs_t: u64) {
         cfg.duration = Duration::from_secs(if ctx.quick() { 8 } else { 14 });
         cfg.track_routes = true;
         cfg.label = "c16-nodes".into();
-        let out = rt.block_on(tokio::task::unconstrained(execute(&cfg, &mut rng)));
+        let out = run_exec(&cfg, &mut rng);
         ctx.eval();
         ctx.count("node-level-executions");
         let n = cfg.ep.n();
@@ -754,7 +757,6 @@ pub fn run_c16_nodes(ctx: &mut Ctx, runs_q: u64, runs_t: u64) {
 
 /// C10: hostile input on all five interfaces and Byzantine-signed content never crash or wedge a node.
 pub fn run_c10(ctx: &mut Ctx) -> Result<(), String> {
-    let rt = tokio::runtime::Builder::new_current_thread().enable_all().start_paused(true).build().map_err(|e| e.to_string())?;
     let mut rng = ctx.rng("c10");
     let runs = ctx.iters(32, 1600);
     for i in 0..runs {
@@ -821,7 +823,7 @@ pub fn run_c10(ctx: &mut Ctx) -> Result<(), String> {
         }
         cfg.withhold = Some((victim, (w * 4..w * 4 + 2).collect()));
         cfg.label = "c10".into();
-        let out = rt.block_on(tokio::task::unconstrained(execute(&cfg, &mut rng)));
+        let out = run_exec(&cfg, &mut rng);
         // C10-specific oracle
         let mut fs: Vec<Finding> = Vec::new();
         let tail_from = cfg.duration - Duration::from_secs(7);
